@@ -38,10 +38,72 @@ def injected(rng, tier):
     return out
 
 
+def stopped_world_scripts(rng, tier):
+    """the game world keeps changing while the server is stopped (several frames): components removed, entities despawned,
+    un-replicated and spawned; then the server starts again and clients connect: nothing of the stopped period or of the old
+    session may leak into the new one"""
+    out = []
+    for i in range(40 if tier == "quick" else 1500):
+        ncl = rng.choice([1, 2])
+        lines = ["cfg policy=%s auth=none track=%d nclients=%d timeout=10000" % (rng.choice(["all", "all", "black"]), rng.randrange(2), ncl), "start", "sframe 0 10"]
+        for c in range(ncl):
+            lines.append("connect %d 1200" % c)
+        n = rng.randrange(2, 6)
+        comps = {}
+        for e in range(1, n + 1):
+            comps[e] = {0, 1} if rng.random() < 0.7 else {0}
+            lines.append("sop spawn %d 1 %s" % (e, " ".join("%d=%d" % (k, rng.randrange(50)) for k in sorted(comps[e]))))
+        lines.append("sframe 1 16")
+        for c in range(ncl):
+            lines += ["deliver %d s2c 0 all" % c, "cframe %d" % c, "deliver %d c2s 0 all" % c]
+        lines.append("stop")
+        for c in range(ncl):
+            lines += ["disconnect %d" % c, "cframe %d" % c]
+        alive = set(comps)
+        nxt = n + 1
+        for _ in range(rng.randrange(2, 6)):
+            lines.append("sframe %d %d" % (rng.randrange(2), rng.choice([0, 10, 16])))
+            for _ in range(rng.randrange(0, 3)):
+                k = rng.random()
+                cand = sorted(alive)
+                if k < 0.35 and cand:
+                    e = rng.choice(cand)
+                    if comps[e]:
+                        kk = rng.choice(sorted(comps[e]))
+                        comps[e].discard(kk)
+                        lines.append("sop remove %d %d" % (e, kk))
+                elif k < 0.6 and cand:
+                    e = rng.choice(cand)
+                    alive.discard(e)
+                    lines.append("sop despawn %d" % e)
+                elif k < 0.7 and cand:
+                    e = rng.choice(cand)
+                    alive.discard(e)               # never touched again
+                    lines.append("sop unmark %d" % e)
+                elif k < 0.85:
+                    comps[nxt] = {0}
+                    alive.add(nxt)
+                    lines.append("sop spawn %d 1 0=%d" % (nxt, rng.randrange(50)))
+                    nxt += 1
+                elif cand:
+                    e = rng.choice(cand)
+                    if 0 in comps[e]:
+                        lines.append("sop mutate %d 0=%d" % (e, rng.randrange(50, 99)))
+        lines += ["start", "sframe %d 10" % rng.randrange(2)]
+        for c in range(ncl):
+            lines.append("connect %d 1200" % c)
+        lines.append("sframe 1 16")
+        meta = dict(connected=list(range(ncl)), events=False)
+        sf = len(lines)
+        lines += gen_scripts.settle_lines(meta)
+        out.append(("stopped-world-%d" % i, lines, sf))
+    return out
+
+
 def run(tier, seed, replay):
     kws = [dict(sessions=True), dict(sessions=True, events=True), dict(sessions=True, nclients=3, track=True), dict(sessions=True, auth="proto", nclients=2, events=True)]
     return sim_check("C09", tier, seed, kws, n_quick=120, n_thorough=12000, oracle_props={"C09", "C01", "C02", "C03"},
-                     custom_scripts=injected,
+                     custom_scripts=lambda rng, tier: injected(rng, tier) + stopped_world_scripts(rng, tier),
                      rule_extra=", plus crash-point enumeration: a disconnect/reconnect or a server stop/start injected at every frame boundary of base scenarios, reconnect after one frame",
                      extra_assumptions=["a reconnect / restart happens after at least one frame of the side concerned (the property's own premise): a session that ends and restarts between two frames "
                                         "is invisible to client_just_disconnected / server_just_stopped (witnesses C09_witness_* in Properties/C09.v)",
